@@ -561,9 +561,12 @@ func jobsFor(tier string) []job {
 		if tier == "thorough" {
 			js = append(js, job{sc, 2, 0, 25 * time.Minute})
 		} else {
-			mb := 2
-			if len(sc.Ops) > 2 {
-				mb = 1
+			// quick: bound 2 for two threads on one shared object or through the same entry point
+			// (short executions only, see pointLimit); different operations on distinct objects meet
+			// only in package-level state and get bound 1 here, bound 2 in the thorough tier
+			mb := 1
+			if len(sc.Ops) == 2 && (sc.Shared || sc.SameEntry()) {
+				mb = 2
 			}
 			js = append(js, job{sc, mb, 300, 4 * time.Minute})
 		}
@@ -606,7 +609,10 @@ func worker(tier string, i, n int) {
 
 func parent(tier string) int {
 	r := ev.New("C16", tier, "model_checking")
-	n := runtime.NumCPU()
+	// four times as many shards as cores, at most one worker process per core at a time: the
+	// scenarios differ in cost by two orders of magnitude, finer shards balance the load
+	n := 4 * runtime.NumCPU()
+	sem := make(chan struct{}, runtime.NumCPU())
 	exe, _ := os.Executable()
 	var mu sync.Mutex
 	var all []*scResult
@@ -616,6 +622,8 @@ func parent(tier string) int {
 		wg.Add(1)
 		go func(i int) {
 			defer wg.Done()
+			sem <- struct{}{}
+			defer func() { <-sem }()
 			var skipList, doneList []string
 			for attempt := 0; attempt < 40; attempt++ {
 				cmd := exec.Command(exe, "worker", tier, strconv.Itoa(i), strconv.Itoa(n))
